@@ -177,6 +177,25 @@ def label_programs(tier):
     return out
 
 
+def slot_programs():
+    """scratch slots spread over main and a subroutine, crossing the 256 limit: the outcome must be a rejection
+    or a text whose load/store immediates fit a uint8"""
+    out = []
+    for nmain, nsub in ((10, 10), (128, 128), (200, 55), (200, 56), (200, 57), (150, 150), (255, 0), (255, 1), (256, 0),
+                        (0, 256), (1, 256), (100, 200)):
+        mvars = {"m%d" % i: "u" for i in range(nmain)}
+        main = ["Seq"] + [["Store", v, ["Int", 1]] for v in mvars]
+        subs = {}
+        if nsub:
+            locs = ["s%d" % i for i in range(nsub)]
+            body = ["Seq"] + [["Store", v, ["Int", 2]] for v in locs] + [["Pop", ["Load", locs[-1]]]]
+            subs["f"] = {"params": [], "ret": "none", "body": body, "locals": locs, "init_locals": False}
+            main.append(["Call", "f"])
+        main += [["Pop", ["Load", v]] for v in list(mvars)[:1]] + [["Int", 1]]
+        out.append((nmain + nsub, {"mode": "A", "vars": mvars, "subs": subs, "main": main}, "slots"))
+    return out
+
+
 def run(tier):
     global _CFGS, _CTOR
     rep = common.Report(PID, tier)
@@ -204,6 +223,7 @@ def run(tier):
     for size, prog, _inputs, _mv in gen_reads.programs():
         items.append((size, prog, "reads"))
     items.extend(label_programs(tier))
+    items.extend(slot_programs())
     rep.bounds["recipes"] = len(items)
     for sh in common.pmap_shards(_worker_recipes, items, order_seed=rep.seed):
         rep.merge(sh)
